@@ -1,5 +1,6 @@
 import TFV.Properties.EA
 import TFV.Properties.Src.Engine
+import TFV.Properties.Src.Skeleton
 #print axioms TFV.EA.C03_calls
 #print axioms TFV.EA.C03_stop_exact
 #print axioms TFV.EA.C03_aim_sides
@@ -9,3 +10,6 @@ import TFV.Properties.Src.Engine
 #print axioms TFV.SrcTie.C03_src_termination_stop
 #print axioms TFV.SrcTie.C03_src_termination_stop_no_stagnation_rule
 #print axioms TFV.SrcTie.C03_src_get_remains_calls
+#print axioms TFV.SrcTie.C03_src_fit
+#print axioms TFV.SrcTie.C03_src_fit_stops_at_first
+#print axioms TFV.SrcTie.C03_src_fit_full
